@@ -126,17 +126,41 @@ func runOne(r *sim.Run) {
 	nSteps := t.Range(1, 200, "steps")
 	// a state with more entries than the cache holds at its REAL capacity (E*50 = 600 in the tiny configuration): the
 	// clear-at-capacity then fires in the middle of ordinary computations, not only under the shrunken knob values
-	if t.Prob(1, 80, "bulk_state") {
+	bulk := false
+	if t.Prob(1, 10, "bulk_state") {
+		bulk = true
 		types.MaxKeyLevelCacheSize = types.EpochLength * 50
+		// around the real capacity (the clear fires mid-computation), or hundreds of entries that all stay cached
+		// (anything that treats large entry sets differently from small ones - batching, chunking, parallel walks -
+		// starts to matter at sizes the small pools never reach; sizes are not multiples of anything in particular)
 		n := types.MaxKeyLevelCacheSize - 3 + t.Choose(700, "bulk_entries")
+		if t.Prob(1, 2, "bulk_below_capacity") {
+			n = 65 + t.Choose(types.MaxKeyLevelCacheSize-70, "bulk_entries_cached")
+		}
 		for i := 0; i < n; i++ {
 			h := refHash([]byte{byte(i), byte(i >> 8), 0xB7})
 			var k [31]byte
 			copy(k[:], h[:31])
 			set[k] = newVal([]int{0, 5, 32, 33, 80}[i%5])
 		}
-		nSteps = t.Range(1, 6, "bulk_steps")
-		r.Count("probe:more_entries_than_the_real_cache_capacity", 1)
+		nSteps = t.Range(3, 12, "bulk_steps")
+		if n > types.MaxKeyLevelCacheSize {
+			r.Count("probe:more_entries_than_the_real_cache_capacity", 1)
+		} else {
+			r.Count("probe:hundreds_of_entries_all_cached", 1)
+		}
+	}
+	// which entry an edit hits: in a large set mostly the ends of the supplied order (first and last few entries), where
+	// chunked or batched walks have their remainders
+	pickKey := func(ks [][31]byte, label string) [31]byte {
+		if bulk && len(ks) > 16 && t.Prob(2, 3, "bulk_edit_at_ends") {
+			i := t.Choose(8, "bulk_end_offset")
+			if t.Bool("bulk_edit_tail") {
+				return ks[len(ks)-1-i]
+			}
+			return ks[i]
+		}
+		return ks[t.Choose(len(ks), label)]
 	}
 	if r.Tier == "quick" && nSteps > 80 {
 		nSteps = 80
@@ -144,7 +168,14 @@ func runOne(r *sim.Run) {
 	computes := 0
 	var hist []string
 	for step := 0; step < nSteps && !r.Violated(); step++ {
-		op := t.Pick([]int{6, 3, 3, 2, 2, 1, 1, 1, 10, 3, 2}, "op")
+		w := []int{6, 3, 3, 2, 2, 1, 1, 1, 10, 3, 2}
+		if bulk { // few steps: mostly edits and computations
+			w = []int{1, 1, 4, 2, 1, 0, 0, 0, 10, 2, 4}
+		}
+		op := t.Pick(w, "op")
+		if bulk && step == 0 {
+			op = 8 // the large set is computed (and cached) before anything changes
+		}
 		ks := keysSorted()
 		switch op {
 		case 0: // add
@@ -162,7 +193,7 @@ func runOne(r *sim.Run) {
 			}
 		case 2: // change value keeping its length
 			if len(ks) > 0 {
-				k := ks[t.Choose(len(ks), "chg")]
+				k := pickKey(ks, "chg")
 				if len(set[k]) > 0 {
 					set[k] = newVal(len(set[k]))
 					r.Count("probe:value_changed_same_length", 1)
@@ -171,7 +202,7 @@ func runOne(r *sim.Run) {
 			}
 		case 3: // flip embedded <-> hashed
 			if len(ks) > 0 {
-				k := ks[t.Choose(len(ks), "flip")]
+				k := pickKey(ks, "flip")
 				if len(set[k]) <= 32 {
 					set[k] = newVal(33 + t.Choose(40, "long"))
 				} else {
@@ -198,7 +229,7 @@ func runOne(r *sim.Run) {
 			}
 		case 9: // the value grows or shrinks by zero octets (state values are full of them: counters, balances, empty lists)
 			if len(ks) > 0 {
-				k := ks[t.Choose(len(ks), "pad")]
+				k := pickKey(ks, "pad")
 				v := append([]byte(nil), set[k]...)
 				if len(v) > 0 && t.Bool("trim") {
 					v = v[:len(v)-1-t.Choose(min(len(v), 3), "trim_n")]
@@ -216,7 +247,7 @@ func runOne(r *sim.Run) {
 			}
 		case 10: // one octet of the value changes (any position, also to zero)
 			if len(ks) > 0 {
-				k := ks[t.Choose(len(ks), "edit")]
+				k := pickKey(ks, "edit")
 				if v := append([]byte(nil), set[k]...); len(v) > 0 {
 					p := t.Choose(len(v), "edit_pos")
 					nv := []byte{0, 1, v[p] ^ 0x80, v[p] + 1}[t.Choose(4, "edit_val")]
